@@ -810,6 +810,7 @@ def explore(fn, max_paths=200000, wall_cap=None, want_witness=True):
                 post = fn(V)
             except Infeasible:
                 CTX = None
+                work.extend(ctx.worklist)  # alternatives queued before the path died must still be explored
                 continue
             except PathAbort:
                 post = None
